@@ -50,6 +50,8 @@ func execute(sc *Scenario, keepLog bool) (res *Result) {
 			}
 		}()
 		switch {
+		case sc.Wrap != nil:
+			runWrap(sc, res, keepLog)
 		case sc.Stream != nil:
 			runStream(sc, res, keepLog)
 		case sc.File != nil || sc.Ez != nil:
